@@ -84,6 +84,9 @@ def main(argv):
                 "property": prop, "seed": seed, "hashseed": hashseed, "cfg": res.cfg,
                 "ops": ops, "signature": v.signature, "detail": v.detail, "facts": v.facts,
                 "step": v.step, "unminimised_len": len(res.ops), "count": 1,
+                # the seeds this worker interpreter executed before, for a whole-session replay
+                # should the violation depend on state earlier runs left behind in the process
+                "session": {"seed0": seed0, "stride": stride, "offset": offset, "k": k},
                 "python": sys.version.split()[0],
             }
             seen_sigs[key] = entry
